@@ -13,10 +13,10 @@ import (
 	"os"
 	"runtime"
 	"runtime/debug"
-	"strings"
-	"time"
 	"sort"
 	"strconv"
+	"strings"
+	"time"
 	"unsafe"
 
 	"github.com/RoaringBitmap/roaring/v2"
@@ -54,17 +54,17 @@ type SlotMsg struct {
 	M string `json:"m"`
 }
 type SlotRep struct {
-	S   int        `json:"s"`
-	Cow bool       `json:"cow"`
-	Tbl bool       `json:"tbl"` // parallel tables coherent
-	Ch  []ChunkRec `json:"ch"`
-	Val string     `json:"val"` // Validate() error text, "" = nil
-	Sz  Num        `json:"sz"`  // GetSerializedSizeInBytes
-	Bd  Num        `json:"bd"`  // BoundSerializedSizeInBytes(N, max+1)
-	Mx  int        `json:"mx"`  // ceil((max+1)/65536), 0 when empty
-	Trunc int      `json:"trunc"` // 0, or the real number of chunks when ch was truncated
-	Gc    Num      `json:"gc"`    // GetCardinality()
-	Emp   bool     `json:"emp"`   // IsEmpty()
+	S     int        `json:"s"`
+	Cow   bool       `json:"cow"`
+	Tbl   bool       `json:"tbl"` // parallel tables coherent
+	Ch    []ChunkRec `json:"ch"`
+	Val   string     `json:"val"`   // Validate() error text, "" = nil
+	Sz    Num        `json:"sz"`    // GetSerializedSizeInBytes
+	Bd    Num        `json:"bd"`    // BoundSerializedSizeInBytes(N, max+1)
+	Mx    int        `json:"mx"`    // ceil((max+1)/65536), 0 when empty
+	Trunc int        `json:"trunc"` // 0, or the real number of chunks when ch was truncated
+	Gc    Num        `json:"gc"`    // GetCardinality()
+	Emp   bool       `json:"emp"`   // IsEmpty()
 }
 
 const repChunkCap = 96
@@ -832,8 +832,8 @@ func (e *Exec) do(c *Call, ev *Event) (targets []int) {
 			}
 		}
 		ev.Ret = map[string]any{"card": numFromU64(st.Cardinality), "containers": int(st.Containers),
-			"kinds": []int{int(st.ArrayContainers), int(st.BitmapContainers), int(st.RunContainers)},
-			"values": numFromU64(st.ArrayContainerValues + st.BitmapContainerValues + st.RunContainerValues),
+			"kinds":     []int{int(st.ArrayContainers), int(st.BitmapContainers), int(st.RunContainers)},
+			"values":    numFromU64(st.ArrayContainerValues + st.BitmapContainerValues + st.RunContainerValues),
 			"viewkinds": []int{nk[0], nk[1], nk[2]}, "hasrun": e.bm(c.X).HasRunCompression()}
 	case "String": // String() lists the elements in increasing order as {a,b,c} (truncated after 0x40000 values)
 		x := e.bm(c.X)
@@ -926,8 +926,8 @@ func (e *Exec) sharingProbe(ev *Event, targets []int) {
 		}
 	}
 	type ref struct {
-		slot   int
-		rec    ChunkRec
+		slot int
+		rec  ChunkRec
 	}
 	byPtr := map[uintptr][]ref{}
 	var order []uintptr // deterministic: pointers in order of first appearance
